@@ -1,5 +1,6 @@
 import Fv.Driver.Proto
 import Fv.Chan.Lin
+import Fv.Chan.Bcast
 /-
 Engine `chan`: replays the history transcripts of `chanh` (see /verif/harness/chan/README.md).
 
@@ -23,6 +24,7 @@ structure CaseSt where
   skip : Option String := none       -- reason the case is not checked
   seqMode : Bool := true
   s : St := {}
+  b : Option BSt := none            -- broadcast (spmc) cases
   pending : Option (Nat × Op) := none
   hist : List Ev := []               -- reversed
   nOps : Nat := 0
@@ -58,7 +60,11 @@ def init (ws : List String) : Except String CaseSt :=
     let seqMode := (kv ws "mode") == some "seq" || threads ≤ 1
     match parseFlavour f cap with
     | some fl => .ok { fl := fl, seqMode := seqMode, s := Fv.Chan.init fl }
-    | none => .ok { skip := some s!"skipped:flavour:{f}" }
+    | none =>
+      if f == "spmc" || f == "spmc_async" then
+        if seqMode then .ok { seqMode := true, b := some (binit cap (f == "spmc_async")) }
+        else .ok { skip := some "skipped:spmc-conc" }
+      else .ok { skip := some s!"skipped:flavour:{f}" }
 
 def parseH (s : String) : Option HName :=
   match s.toList with
@@ -230,6 +236,18 @@ def parseDrops (ws : List String) : Option (List (Nat × Nat)) :=
       | _, _ => none
     | _ => none
 
+def parseDropsB (ws : List String) : Option (List (Nat × Nat × Nat)) :=
+  ws.mapM fun w =>
+    match w.splitOn ":" with
+    | [a, b] =>
+      match a.toNat?, b.splitOn "/" with
+      | some x, [d, c] =>
+        match d.toNat?, c.toNat? with
+        | some d, some c => some (x, d, c)
+        | _, _ => none
+      | _, _ => none
+    | _ => none
+
 def step (st : CaseSt) (op res : List String) : Except String (CaseSt × List String) :=
   match st.skip with
   | some _ => .ok (st, [])
@@ -254,6 +272,16 @@ def step (st : CaseSt) (op res : List String) : Except String (CaseSt × List St
         match st.pending with
         | none => .error "model=return-without-call"
         | some (_, o) =>
+          match st.b with
+          | some b =>
+            let (b', out) := stepB' b o
+            match parseRes o r with
+            | none => .error s!"unparsed-result model={showRes (observe o out)}"
+            | some ir =>
+              if out.tag == .blocks then .error "model=blocks impl=returned"
+              else if observe o out == ir then .ok ({ st with b := some b', pending := none }, [s!"spmc:{opName o}:{showTag out.tag}"])
+              else .error s!"model={showRes (observe o out)} impl={showRes ir}"
+          | none =>
           let (s', out) := stepOp st.fl st.s o
           match parseRes o r with
           | none => .error s!"unparsed-result model={showRes (observe o out)}"
@@ -277,7 +305,9 @@ def step (st : CaseSt) (op res : List String) : Except String (CaseSt × List St
       match st.pending with
       | none => .ok ({ st with status := status }, [s!"status:{(status.splitOn ":").headD ""}"])
       | some (_, o) =>
-        let (s', out) := stepOp st.fl st.s o
+        let (s', out) := match st.b with
+          | some b => (st.s, (stepB' b o).2)
+          | none => stepOp st.fl st.s o
         if out.tag == .blocks then .ok ({ st with s := s', pending := none, status := status }, [s!"{opName o}:blocks", "blocks"])
         else if status.startsWith "panic" then .error s!"model={showRes (observe o out)} impl=panic"
         else .error s!"model={showRes (observe o out)} impl=never-returned({status})"
@@ -287,6 +317,14 @@ def step (st : CaseSt) (op res : List String) : Except String (CaseSt × List St
     | none => .error "unparsed-D-line"
     | some d =>
       if st.seqMode then
+        match st.b with
+        | some b =>
+          -- broadcast: `<id>:<drops>/<created>`; every payload (the original and one clone per delivery) is dropped
+          match (parseDropsB toks).bind (fun l => l.find? (fun x =>
+              x.2.1 != x.2.2 || (b.created.contains x.1 && x.2.2 != 1 + (b.recvd.filter (fun y => y.2 == x.1)).length))) with
+          | some (v, dd, cc) => .error s!"drop-count value={v} impl={dd}/{cc} model-created={1 + (b.recvd.filter (fun y => y.2 == v)).length}"
+          | none => .ok (st, ["drops-checked"])
+        | none =>
         match compareDrops st.s d with
         | .ok _ => .ok (st, ["drops-checked"])
         | .error m => .error m
